@@ -54,6 +54,13 @@ class _Continue(Exception):
     pass
 
 
+class _SymComp(Exception):
+    """comprehension generator over a list of symbolic length (handled by _comp_symbolic)"""
+
+    def __init__(self, base, gen, loc):
+        self.base, self.gen, self.loc = base, gen, loc
+
+
 class BoundMethod(object):
     def __init__(self, self_value, func, defining_cls=None):
         self.self_value = self_value
@@ -103,6 +110,22 @@ class SList(object):
 
     def __repr__(self):
         return "SList(%s,len=%s)" % (self.name, self.length)
+
+
+class LTerm(SList):
+    """Symbolic list defined as a term over another symbolic list:
+    op in ('sorted', 'slice', 'map'); base is the list it is derived from; params describe the
+    operation (key closure and reverse flag / bounds / element expression).  Iterating it visits an
+    arbitrary member, like any SList; contracts compare the *term structure* with the specified one."""
+
+    def __init__(self, op, base, params, name, length, elem_factory, taint=frozenset()):
+        SList.__init__(self, name, length, elem_factory, None, taint)
+        self.op = op
+        self.base = base
+        self.params = params
+
+    def __repr__(self):
+        return "LTerm(%s of %r)" % (self.op, self.base)
 
 
 # ------------------------------------------------------------------ session
@@ -517,6 +540,29 @@ class Path(object):
             except Exception as e:      # never let reporting break a verdict
                 out[k] = "<unconcretizable: %s>" % e
         out['__decisions__'] = ''.join(d if len(d) == 1 else '[%s]' % d for d in self.decisions)
+        # the abstract environment this path met: stored objects loaded (class + the columns the
+        # path looked at) and the protocol version chosen; used by the native engine replay
+        try:
+            store = []
+            for e in self.trace:
+                if e[0] == 'db.load' and isinstance(e[3], Obj):
+                    o = e[3]
+                    cols = {}
+                    for k, v in o.meta.get('initial_columns', {}).items():
+                        try:
+                            cols[k] = concretize(v, model, {})
+                        except Exception:
+                            pass
+                    store.append({'class': o.cls.__name__, 'columns': cols})
+            if store:
+                out['__store__'] = store
+            for v in self.inputs.values():
+                if isinstance(v, Obj) and v.cls.__name__ == 'KmipEngine':
+                    pv = v.fields.get('_protocol_version')
+                    if pv is not None and not isinstance(pv, (Obj, SOpt)):
+                        out['__protocol_version__'] = (pv.major, pv.minor)
+        except Exception:
+            pass
         return out
 
     # -- sequence refinement: S == units ++ S'
@@ -1027,15 +1073,47 @@ class Interp(object):
             g = node.generators[gi]
             e2 = Env(loc, env.globals, env.cls_ctx, env.fn_name, env.ex)
             e2.old, e2.spec = env.old, env.spec
-            for item in self.iterate_concrete(self.eval(g.iter, e2)):
+            itv = self.resolve_opt(self.eval(g.iter, e2))
+            if isinstance(itv, SList) and not isinstance(itv.length, int):
+                if len(node.generators) != 1 or g.ifs:
+                    raise OutOfFragment("comprehension over a symbolic list with several generators / a filter")
+                raise _SymComp(itv, g, loc)
+            for item in self.iterate_concrete(itv):
                 loc2 = dict(loc)
                 e3 = Env(loc2, env.globals, env.cls_ctx, env.fn_name, env.ex)
                 e3.old, e3.spec = env.old, env.spec
                 self.assign(g.target, item, e3)
                 if all(self.cond(self.eval(c, e3)) for c in g.ifs):
                     rec(gi + 1, loc2)
-        rec(0, dict(env.locals))
+        try:
+            rec(0, dict(env.locals))
+        except _SymComp as sc:
+            return self._comp_symbolic(node, env, sc)
         return ctor(out)
+
+    def _comp_symbolic(self, node, env, sc):
+        """[elt for x in L] with L of symbolic length: the list term map(elt, L).  The element
+        expression is evaluated for an arbitrary member (so whatever it may raise or do is explored
+        whenever the list can be non-empty); the result is an LTerm whose members are images."""
+        base, g, loc = sc.base, sc.gen, sc.loc
+
+        def image(I2, tag):
+            x = base.elem_factory(I2, tag)
+            base.members.append(x)
+            loc2 = dict(loc)
+            e3 = Env(loc2, env.globals, env.cls_ctx, env.fn_name, env.ex)
+            e3.old, e3.spec = env.old, env.spec
+            I2.assign(g.target, x, e3)
+            return x, I2.eval(node.elt, e3)
+        params = {'elt': ast.unparse(node.elt), 'target': ast.unparse(g.target)}
+        n = base.length
+        if self.path.branch(n > 0):
+            x, y = image(self, "c%d" % len(base.members))
+            params['sample_in'], params['sample_out'] = x, y
+        t = LTerm('map', base, params, base.name + ".map", n, lambda I2, tag: image(I2, tag)[1], base.taint)
+        if 'sample_out' in params:
+            t.members.append(params['sample_out'])
+        return t
 
     def iterate_concrete(self, it):
         """Iterate something whose spine is concrete."""
@@ -1638,6 +1716,11 @@ class Interp(object):
         except extract.FunctionNotFound:
             return self.models.native_call(self, fn, args, kwargs)
         qn = ex.qualname
+        qm = self.models.QUALNAME_MODELS.get(qn)
+        if qm is not None:
+            r = qm(self, args, kwargs)
+            if r is not NotImplemented:
+                return r
         c = None
         if self.prefer_variant:
             c = lookup_contract(qn + '#' + self.prefer_variant)
